@@ -97,6 +97,10 @@ def discharge(fx, O, s):
             cl = O.classify(b, idx)
             if cl[0] == "bounded" and (1 << cl[1]) <= ln[1]:
                 return "index bounded to %d bits into an array of %d (%s)" % (cl[1], ln[1], cl[2])
+            import overflow
+            r = overflow.Intervals(fx, b, prov).at(guards.branch_conditions(b, prov), bi).term(idx)
+            if r is not None and 0 <= r[0] and r[1] < ln[1]:
+                return "index in [%d, %d] by interval reasoning into an array of %d" % (r[0], r[1], ln[1])
         # slice: the length operand is PtrMetadata/len of the indexed place
         recv = len_source(ln)
     else:
@@ -118,6 +122,23 @@ def discharge(fx, O, s):
                     return "dominated by index < len() of the same receiver"
                 if ln is not None and sym.norm(sym.strip(c)) == sym.norm(ln):
                     return "dominated by index < the checked length"
+    # (b) the index is the payload of `opt.filter(|&i| i < x.len())` with x the same receiver: only in-range values survive the filter
+    if idx[0] == "field" and idx[1][0] == "variant" and idx[1][2] == "Some" and nrecv is not None:
+        c = sym.strip(idx[1][1])
+        if c[0] == "call" and (c[1] or "").endswith("Option::<T>::filter") and len(c[2]) == 2:
+            clo = sym.strip(c[2][1])
+            if clo[0] == "agg" and clo[1] == "closure":
+                cb = fx.body(clo[2])
+                if cb is not None and len(cb.return_blocks()) == 1:
+                    ret = sym.strip(sym.Prov(cb).local(0))
+                    if ret[0] == "bin" and ret[1] in ("Lt", "Gt"):
+                        a, l = (ret[2], ret[3]) if ret[1] == "Lt" else (ret[3], ret[2])
+                        a = unref(a)
+                        l = len_of(l)
+                        if a[0] == "arg" and a[1] == 2 and l is not None and l[0] == "field" and sym.strip(l[1])[0] == "arg" and sym.strip(l[1])[1] == 1 \
+                                and str(l[2]).isdigit() and int(l[2]) < len(clo[3]):
+                            if sym.norm(unref(clo[3][int(l[2])])) == nrecv:
+                                return "payload of Option::filter(|i| i < len()) over the same receiver"
     return None
 
 
